@@ -120,6 +120,8 @@ func c07Bounds(fs *Facts, f *File) {
 	if fd == nil {
 		return
 	}
+	c07Canon(fd, []string{"b", "fromTime", "toTime", "n", "fromNano", "toNano", "isAscending", "startIdx", "endIdx",
+		"l", "r", "m", "l", "r", "m", "l", "r", "m", "l", "r", "m"})
 	var split *ast.IfStmt
 	for _, st := range fd.Body.List {
 		if ifs, ok := st.(*ast.IfStmt); ok && f.Str(ifs.Cond) == "isAscending" {
@@ -163,6 +165,7 @@ func c07Page(fs *Facts, f *File) {
 	if fd == nil {
 		return
 	}
+	c07Canon(fd, []string{"b", "orderPosition", "startIdx", "endIdx", "actualStart", "actualEnd", "resultSize", "result", "i"})
 	want := []string{
 		"startIdx := 0",
 		"endIdx := len(b.treasuresByOrder) - 1",
@@ -201,6 +204,7 @@ func c07Comparators(fs *Facts, f *File) {
 			ok = false
 			break
 		}
+		c07Canon(fd, []string{"b", "k", "l"})
 		less := "return b.treasuresByOrder[k]." + c.getter + "() " + c.op + " b.treasuresByOrder[l]." + c.getter + "()"
 		if len(f.Calls(fd.Body, "sort.Slice")) != 1 || !f.Contains(fd.Body, less) {
 			ok, where = false, c07At(c07Beacon, f, fd)
@@ -226,6 +230,7 @@ func c07Comparators(fs *Facts, f *File) {
 				ok = false
 				break
 			}
+			c07Canon(fd, []string{"b", "k", "l", "kVal", "err", "lVal"})
 			src := f.Str(fd.Body)
 			if len(f.Calls(fd.Body, "sort.Slice")) != 1 || strings.Count(src, "if err != nil { return false }") != 2 ||
 				!strings.Contains(src, "kVal, err := b.treasuresByOrder[k].GetContent"+t+"()") ||
@@ -245,6 +250,7 @@ func c07Comparators(fs *Facts, f *File) {
 			ok = false
 			break
 		}
+		c07Canon(fd, []string{"b", "value", "t", "items", "i", "t", "v", "err", "i", "j", "i", "it"})
 		src := f.Str(fd.Body)
 		if !strings.Contains(src, "v, err := t.GetContentInt64() if err != nil { return fmt.Errorf(") ||
 			len(f.Calls(fd.Body, "sort.SliceStable")) != 1 || !strings.Contains(src, "return items[i].value "+d.op+" items[j].value") ||
@@ -274,6 +280,8 @@ func c07Incremental(fs *Facts, f *File) {
 		if fd == nil || len(fd.Type.Params.List) != 1 || len(fd.Type.Params.List[0].Names) != 1 {
 			continue
 		}
+		c07Canon(fd, []string{"s", "treasureInterface", "err"})
+		c07Canon(fd, []string{"s", "treasureInterface"})
 		arg := fd.Type.Params.List[0].Names[0].Name
 		where := c07At(c07Swamp, f, fd)
 		asc, desc := "s."+s.field+"ASC", "s."+s.field+"DESC"
@@ -315,6 +323,7 @@ func c07Cold(fs *Facts, f *File) {
 	if fd == nil {
 		return
 	}
+	c07Canon(fd, []string{"s", "bc", "all", "filtered", "k", "t", "filtered", "k", "t", "filtered", "k", "t"})
 	var sw *ast.SwitchStmt
 	ast.Inspect(fd.Body, func(n ast.Node) bool {
 		if s, ok := n.(*ast.SwitchStmt); ok && sw == nil {
@@ -387,6 +396,7 @@ func c07Guards(fs *Facts, f *File) {
 	if fd == nil || len(fd.Type.Params.List) != 1 || len(fd.Type.Params.List[0].Names) != 1 {
 		return
 	}
+	c07Canon(fd, []string{"s", "d"})
 	arg := fd.Type.Params.List[0].Names[0].Name
 	where := c07At(c07Swamp, f, fd)
 	if len(fd.Body.List) != 5 || f.Str(fd.Body.List[0]) != "s.addToKeyBeacon("+arg+")" {
@@ -418,6 +428,7 @@ func c07Save(fs *Facts, f *File) {
 	if fd == nil {
 		return
 	}
+	c07Canon(fd, []string{"s", "t", "guardID", "existedTreasureObj", "wi", "inMem", "wi", "inMem"})
 	var modified *ast.IfStmt
 	for _, st := range fd.Body.List {
 		if ifs, ok := st.(*ast.IfStmt); ok && strings.HasPrefix(f.Str(ifs.Cond), "t.IsContentChanged() || t.IsContentTypeChanged() || t.IsExpirationTimeChanged()") {
@@ -497,6 +508,7 @@ func c07Shared(fs *Facts, f *File) {
 	if fd == nil || at == nil {
 		return
 	}
+	c07Canon(fd, []string{"s", "order", "bc", "from", "limit"})
 	if n == 2 && f.Contains(fd.Body, "s.buildBeacon(s.valueBeaconASC, s.valueBeaconDESC, bc)") &&
 		f.Contains(fd.Body, "return s.valueBeaconASC.GetManyFromOrderPosition(") && f.Contains(fd.Body, "return s.valueBeaconDESC.GetManyFromOrderPosition(") {
 		fs.Tri("valueShared", Yes, c07At(c07Swamp, f, at))
@@ -508,6 +520,7 @@ func c07LimitZero(fs *Facts, f *File) {
 	if fd == nil {
 		return
 	}
+	c07Canon(fd, []string{"s", "beaconType", "beaconOrderType", "from", "limit", "fromTime", "toTime", "selectedTreasures", "err", "returningTreasures", "d"})
 	if f.Contains(fd.Body, "if limit == 0 { limit = int32(s.beaconKey.Count()) }") {
 		fs.Tri("limitZeroAll", Yes, c07At(c07Swamp, f, fd))
 	}
@@ -518,6 +531,7 @@ func c07Window(fs *Facts, f *File) {
 	var at ast.Node
 	for _, fn := range []string{"findInCreationTimeBeacon", "findInUpdateTimeBeacon", "findInExpirationTimeBeacon"} {
 		fd := f.Func("swamp", fn)
+		c07Canon(fd, []string{"s", "order", "from", "limit", "fromTime", "toTime"})
 		if fd == nil || strings.Count(f.Str(fd.Body), "FromTime: fromTime, ToTime: toTime,") != 2 ||
 			strings.Count(f.Str(fd.Body), "From: int(from), Limit: int(limit),") != 2 {
 			ok = false
@@ -526,6 +540,8 @@ func c07Window(fs *Facts, f *File) {
 	}
 	for _, fn := range []string{"findInKeyBeacon", "findInValueBeacon"} {
 		fd := f.Func("swamp", fn)
+		c07Canon(fd, []string{"s", "order", "from", "limit"})
+		c07Canon(fd, []string{"s", "order", "bc", "from", "limit"})
 		if fd == nil || strings.Contains(f.Str(fd.Body), "FromTime") || strings.Count(f.Str(fd.Body), "From: int(from), Limit: int(limit),") != 2 {
 			ok = false
 		}
@@ -540,6 +556,7 @@ func c07GetBeacon(fs *Facts, f *File) {
 	if fd == nil {
 		return
 	}
+	c07Canon(fd, []string{"s", "beaconType", "order"})
 	served := map[string]bool{}
 	requested := true
 	any := false
